@@ -277,12 +277,14 @@ impl Subscriber for SubscriberService {
 
         // Pull the available messages from the subscription.
         let messages_fut = async {
+            let mut wake_up = WakeUp::new(&subscription);
             loop {
                 let signal = subscription.messages_available();
                 #[cfg(deltio_verif)]
                 crate::verif::point("pull.after_signal").await;
                 let received_messages =
                     pull_messages(&subscription, request.max_messages as u16).await?;
+                wake_up.used();
                 // If we got messages, return them.
                 if !received_messages.is_empty() {
                     log::debug!(
@@ -305,6 +307,7 @@ impl Subscriber for SubscriberService {
                 #[cfg(deltio_verif)]
                 crate::verif::point("pull.before_wait").await;
                 signal.await;
+                wake_up.received();
             }
         };
 
@@ -360,6 +363,7 @@ impl Subscriber for SubscriberService {
             async_stream::try_stream! {
                 // TODO: Respect the max_* settings if possible?
                 let mut was_deleted = false;
+                let mut wake_up = WakeUp::new(&subscription);
                 while !was_deleted {
                     // First, subscribe to the messages signal so that
                     // any new messages from this point forward will trigger
@@ -378,6 +382,7 @@ impl Subscriber for SubscriberService {
                         Err(PullMessagesError::Closed) => break,
                         Ok(pulled) => pulled,
                     };
+                    wake_up.used();
 
                     // Map them to the protocol format.
                     let received_messages = pulled
@@ -408,6 +413,9 @@ impl Subscriber for SubscriberService {
                         _ = signal => false,
                         _ = deleted => true
                     };
+                    if !was_deleted {
+                        wake_up.received();
+                    }
                 }
 
                 // If we ever get here, it means the loop above broke due to
@@ -494,6 +502,42 @@ impl Subscriber for SubscriberService {
 
     async fn seek(&self, _request: Request<SeekRequest>) -> Result<Response<SeekResponse>, Status> {
         Err(Status::unimplemented("Seek is not implemented in Deltio"))
+    }
+}
+
+/// The messages signal wakes one waiting consumer per event. A consumer that has been woken
+/// owns that wake-up until it has pulled; if it goes away before (a cancelled request, a
+/// dropped stream), the wake-up is handed to the next waiting consumer instead of being
+/// lost together with it.
+struct WakeUp<'a> {
+    subscription: &'a crate::subscriptions::Subscription,
+    pending: bool,
+}
+
+impl<'a> WakeUp<'a> {
+    fn new(subscription: &'a crate::subscriptions::Subscription) -> Self {
+        Self {
+            subscription,
+            pending: false,
+        }
+    }
+
+    /// The consumer was woken by the messages signal.
+    fn received(&mut self) {
+        self.pending = true;
+    }
+
+    /// The consumer has pulled.
+    fn used(&mut self) {
+        self.pending = false;
+    }
+}
+
+impl Drop for WakeUp<'_> {
+    fn drop(&mut self) {
+        if self.pending {
+            self.subscription.pass_on_messages_available();
+        }
     }
 }
 
